@@ -167,7 +167,9 @@ pub fn mutate_field(rng: &mut Rng, bytes: &mut [u8], img: &Image, idx: &FieldInd
         }
         DirSize => {
             let old = rd64(bytes, f.off);
-            let v = match rng.below(14) {
+            let v = match rng.below(16) {
+                14 => u64::MAX - 63,
+                15 => u64::MAX & !63,
                 0 => 0,
                 1 => 4095,
                 2 => 4096,
